@@ -16,6 +16,10 @@ from collections import Counter
 VERIF = os.path.dirname(os.path.dirname(os.path.abspath(__file__)))
 REPO = os.environ.get("PYTRAPIC_REPO", "/repo")
 REPO_SRC = os.path.join(REPO, "src")
+# where a run writes: /verif/evidence and /verif/out/replays, unless redirected (the sensitivity runner points
+# checks of deliberately broken scratch trees somewhere else, so that they never overwrite real evidence)
+EVIDENCE_DIR = os.environ.get("VERIF_EVIDENCE_DIR") or os.path.join(VERIF, "evidence")
+REPLAY_DIR = os.environ.get("VERIF_REPLAY_DIR") or os.path.join(VERIF, "out", "replays")
 
 from . import farm as farm_mod  # noqa: E402
 from . import gen, judge, minimise, oracle  # noqa: E402
@@ -29,9 +33,9 @@ LEVEL = {"C10": "fault_enumeration", "C11": "exploration", "C14": "exploration"}
 CONFORM = {"quick": {"helper": 6, "api": 6, "daemon": 8}, "thorough": {"helper": None, "api": 80, "daemon": 80}}
 TIERS = {
     "quick": {"hash_seeds": 4, "C10": {"random": 120, "sweep_n": (0,), "typing_all": False},
-              "C11": {"runs": 140}, "C14": {"runs": 260}, "budget_s": 300},
+              "C11": {"runs": 140, "soak": 2}, "C14": {"runs": 260, "soak": 2}, "budget_s": 300},
     "thorough": {"hash_seeds": 32, "C10": {"random": 4000, "sweep_n": (0, 1), "typing_all": True},
-                 "C11": {"runs": 6000}, "C14": {"runs": 10000}, "budget_s": 3000},
+                 "C11": {"runs": 6000, "soak": 60}, "C14": {"runs": 10000, "soak": 60}, "budget_s": 3000},
 }
 
 
@@ -124,9 +128,11 @@ class Check:
             specs += [gen.c10_random_spec(self.seed, k, self.corp, self.hash_seeds) for k in range(c["random"])]
             return specs
         if p == "C11":
-            return [gen.c11_spec(self.seed, k, self.corp, self.hash_seeds) for k in range(c["runs"])]
+            return ([gen.c11_spec(self.seed, k, self.corp, self.hash_seeds, soak=True) for k in range(c["soak"])]
+                    + [gen.c11_spec(self.seed, k, self.corp, self.hash_seeds) for k in range(c["runs"])])
         if p == "C14":
-            return [gen.c14_spec(self.seed, k, self.corp, self.hash_seeds) for k in range(c["runs"])]
+            return ([gen.c14_spec(self.seed, k, self.corp, self.hash_seeds, soak=True) for k in range(c["soak"])]
+                    + [gen.c14_spec(self.seed, k, self.corp, self.hash_seeds) for k in range(c["runs"])])
         raise SystemExit("unknown property %s" % p)
 
     # -- one spec, fully judged (used by minimisation and replay) ---------------------------------
@@ -261,7 +267,7 @@ class Check:
         for s, r, v in violations:
             groups.setdefault(signature(v), []).append((s, r, v))
         new_lines, known_lines = [], {}
-        os.makedirs(os.path.join(VERIF, "out", "replays"), exist_ok=True)
+        os.makedirs(REPLAY_DIR, exist_ok=True)
         reported = 0
         for sig in sorted(groups):
             items = groups[sig]
@@ -306,7 +312,7 @@ class Check:
                 known_lines[k["id"]][1] += len(items)
                 continue
             name = "%s-%s-%s.json" % (prop, v2["class"], oracle.digest(small))
-            path = os.path.join(VERIF, "out", "replays", name)
+            path = os.path.join(REPLAY_DIR, name)
             with open(path, "w") as f:
                 json.dump({"property": prop, "class": v2["class"], "message": v2["message"], "seed": self.seed,
                            "tree": tree_digest(), "occurrences_in_batch": len(items), "minimisation": steps,
@@ -314,8 +320,8 @@ class Check:
             new_lines.append((v2, path, len(items)))
         wall = time.monotonic() - self.t0
         ev = self.evidence(specs, executed, violations, harness, det, wall, new_lines, known_lines)
-        os.makedirs(os.path.join(VERIF, "evidence"), exist_ok=True)
-        with open(os.path.join(VERIF, "evidence", "%s.json" % prop), "w") as f:
+        os.makedirs(EVIDENCE_DIR, exist_ok=True)
+        with open(os.path.join(EVIDENCE_DIR, "%s.json" % prop), "w") as f:
             json.dump(ev, f, indent=1, default=repr)
         for kid, (k, n) in sorted(known_lines.items()):
             log("KNOWN-FINDING: property=%s %s [%s, %d runs]" % (prop, k.get("summary", k["id"]), k["id"], n))
@@ -485,7 +491,7 @@ RULES = {
 }
 EXPECTED_PROBES = {
     "C10": ["helper-timeout", "helper-killed", "helper-intrinsic-never-ends", "helper-intrinsic-blocked-on-stdin", "spawn_fail",
-            "crash", "nonzero", "garbage_out", "stderr_noise", "slow", "stall", "orphan"],
+            "crash", "nonzero", "garbage_out", "stderr_noise", "slow", "stall", "orphan", "drip"],
     "C11": ["helper-script-run", "helper-timeout"],
     "C14": ["eof-mid-line", "short_write", "helper-timeout"],
 }
@@ -553,6 +559,7 @@ def setup():
 def main(argv=None):
     ap = argparse.ArgumentParser()
     ap.add_argument("what")
+    ap.add_argument("names", nargs="*")
     ap.add_argument("--tier", default=os.environ.get("VERIF_TIER") or "quick")
     ap.add_argument("--replay")
     ap.add_argument("--seed", type=int, default=None)
@@ -565,6 +572,9 @@ def main(argv=None):
     if a.what == "selftest":
         from . import selftest
         return selftest.main(seed, a.tier)
+    if a.what == "sensitivity":
+        from . import sensitivity
+        return sensitivity.main(a.names, a.tier)
     if a.what not in LEVEL:
         log("unknown check %r" % a.what)
         return 2
